@@ -652,3 +652,52 @@ def acquire_release_pairing_lint(ctx, rule, prefixes):
                       'a path from the acquire to the end of %s does not release %s: the next task to reach acquire() waits for ever and '
                       'the pipeline never finishes' % (f.name, recv), f.loc(c))
     return n
+
+
+def header_name_key_rule(ctx, rule):
+    """Readers look a header up under `normalize_name('Content-Encoding')`.  A field parsed off the wire is found only if the key it
+    was stored under went through the same normalisation *after* the white space around the name was removed (`Content-Encoding :
+    gzip` is tolerated in responses, RFC 7230 3.2.4): somewhere between `line.split(':', 1)` and the map key there is a strip() of
+    the name - in parse(), in add() or in normalize_name()."""
+    import ast
+    from .. import util as U
+    from ..index import norm_text, walk_no_nested
+    repo, ck = ctx.repo, ctx.check
+    parse = repo.func('wpull.namevalue:NameValueRecord.parse')
+    add = repo.func('wpull.namevalue:NameValueRecord.add')
+    nn = repo.func('wpull.namevalue:normalize_name')
+    adds = [c for c in U.calls(parse.node) if U.attr_name(c) == 'add' and c.args]
+    if not adds:
+        raise AnalysisError('NameValueRecord.parse does not add() the fields it reads')
+
+    def strips(e, fn, depth=0):
+        """expression e (in function fn) is the result of a strip of the name"""
+        if e is None or depth > 4:
+            return False
+        if isinstance(e, ast.Call) and isinstance(e.func, ast.Attribute) and e.func.attr in ('strip',) and not e.args:
+            return True
+        if isinstance(e, ast.Call) and isinstance(e.func, ast.Attribute) and e.func.attr in ('title', 'lower', 'upper', 'casefold'):
+            return strips(e.func.value, fn, depth + 1)
+        if isinstance(e, ast.Name):
+            ds = [v for v, k, st in U.local_defs(fn).get(e.id, []) if k == 'assign']
+            # flow-insensitive: some assignment `name = name.strip()` on the way (the split result is the only other definition)
+            return any(strips(v, fn, depth + 1) for v in ds)
+        return False
+
+    def key_strips(fn, pname):
+        """fn strips its parameter before using it (normalize_name / add)"""
+        for st in walk_no_nested(fn.node):
+            if isinstance(st, ast.Call) and isinstance(st.func, ast.Attribute) and st.func.attr == 'strip' and not st.args:
+                b = st.func.value
+                while isinstance(b, ast.Call) and isinstance(b.func, ast.Attribute):
+                    b = b.func.value
+                if isinstance(b, ast.Name) and b.id == pname:
+                    return True
+        return False
+    downstream = key_strips(add, 'name') or key_strips(nn, 'name')
+    for c in adds:
+        ok = downstream or strips(c.args[0], parse.node)
+        ck.expect(ok, rule, parse.qual, 'the field name is stripped before it becomes the lookup key',
+                  'a field whose name is followed by white space before the colon (`Content-Encoding : gzip`) is stored under a key '
+                  'no reader asks for: the body is treated as not encoded / not length-delimited', parse.loc(c))
+    return len(adds)
